@@ -242,6 +242,47 @@ def run_chunk(case: dict) -> dict:
         if v.startswith("violated"):
             fails.append({"symptom": v[9:], "detail": d, "stream": spans, "batch_size": 1000,
                           "time_buffer": 0, "clean_first": False, "meta": {"large": True}})
+    if case.get("large"):
+        # extremes of the shape dimensions: call chains 99-130 levels deep that differ only at
+        # the bottom (leaf type, a fork instead of nesting, one more level), and roots with
+        # 150 children that differ in one child - every variant stored twice
+        base = 1_700_000_000 * 10**9
+        spans = []
+        t = 0
+
+        def add_trace(nodes: list[tuple[str, int | None]]) -> None:
+            nonlocal t
+            for _copy in range(2):
+                jid = f"X{t:03d}"
+                t += 1
+                for i, (ty, par) in enumerate(nodes):
+                    spans.append({"job_name": "wf", "job_id": jid, "event_type": ty,
+                                  "event_id": f"{jid}.{i}", "start_timestamp": base + t * 10**6 + i,
+                                  "end_timestamp": base + t * 10**6 + 5000 - i,
+                                  "application_name": "app",
+                                  "parent_event_id": None if par is None else f"{jid}.{par}"})
+        for depth in (99, 100, 101, 102, 130):
+            chain = [("C", None)] + [("C", i) for i in range(depth - 1)]
+            add_trace(chain + [("OK", depth - 1)])
+            add_trace(chain + [("ERROR", depth - 1)])
+            add_trace(chain + [("OK", depth - 1), ("OK", depth - 1)])
+            add_trace(chain + [("OK", depth - 1), ("OK", depth)])
+        for width in (150,):
+            star = [("R", None)] + [("K", 0)] * width
+            add_trace(star)
+            add_trace(star + [("K", 0)])
+            add_trace(star[:-1] + [("k", 0)])
+            add_trace(star + [("K", 1)])
+        rng.shuffle(spans)
+        for b in (3, 1000):
+            v, d, info = judge(spans, b, 0, "sqlite:///:memory:", False)
+            n += 1
+            bump("extreme_shapes:" + (v if v.startswith("skip") else v.split(":")[0]))
+            bump("extreme_shape_traces", t)
+            if v.startswith("violated"):
+                fails.append({"symptom": v[9:], "detail": d, "stream": spans, "batch_size": b,
+                              "time_buffer": 0, "clean_first": False,
+                              "meta": {"extreme_shapes": True}})
     for idx in range(case["count"]):
         mode = rng.choice(["small-exhaustive", "random", "hostile-cleaned"])
         if mode == "hostile-cleaned":
@@ -311,7 +352,9 @@ def main(tier: str, seed: int) -> int:
              "{1,2,3,1000} and time buffers {0,1,5,10,20} min; every third store is also evaluated "
              "twice on one database file with late-arriving spans in between (the second "
              "answer must describe the full store); two (thorough 8) stores of 520-700 traces of "
-             "pairwise different shapes evaluated with batch size 1000. distinct = distinct (store, "
+             "pairwise different shapes evaluated with batch size 1000, each with a store of extreme "
+             "shapes (call chains 99-130 deep differing only at the bottom, roots with 150 "
+             "children differing in one child; every variant twice). distinct = distinct (store, "
              "batch size, buffer); all non-trivial")
     chk.assumptions = [
         "model: AHU canonical shape (type, sorted child shapes) per trace and root workflow name",
